@@ -121,7 +121,7 @@ def specrec(fn):
     return fn
 
 
-def lemma(key, after, forget=()):
+def lemma(key, after, forget=(), only=False):
     """an intermediate assertion (cut): proved where the statement whose source starts with `after` has just been executed, then assumed"""
     def deco(fn):
         return fn
